@@ -41,6 +41,22 @@ theorem C04_table_detected (c : Cls) (fz ex : Bool) :
       ((hashArgOf c).isNone && isTrue (argOf c.api "auto_detect" c.autoDetect) &&
         (c.ownHash != .no || c.ownEq)) := rfl
 
+/-- **frozen, also by inheritance — through any base**: the last class of a chain is frozen iff its own
+    decorator says so, or a class of its chain of ancestors is, or any of its further bases is, wherever that
+    base is listed (stated for the class alone; the chain's contribution is the `frozenBase` argument of
+    `facts`) -/
+theorem C04_frozen_any_base (outF : Facts → Outcome) (c : Case) (k : Cls) (hch : c.chain = [k])
+    (hp : (k.api == Api.plain) = false) :
+    (nodesWith outF c).map (fun n => n.facts.frozenEff) =
+      [truthy (argOf k.api "frozen" k.frozen) || c.side.any Side.frozen] := by
+  simp [nodesWith, hch, nodesFrom, hp, facts]
+
+/-- … e.g. `@attr.s class C(Mixin, FrozenBase)` (frozen base listed second) gets a generated `__hash__`, and
+    without the frozen base `__hash__ = None` -/
+example : wf witnessMI = true ∧ (model witnessMI).classes = [.generated] ∧
+    (model { witnessMI with side := witnessMI.side.take 1 }).classes = [.isNone] ∧
+    spec witnessMI { classes := [.isNone], results := [] } = false := by decide
+
 /-- **cache_hash errors**: the decorator raises TypeError iff cache_hash is on and either no hash is
     generated or no `__init__` is (and `cmp` was not mixed with `eq`, which raises ValueError first) -/
 theorem C04_cache_errors (f : Facts) (o : Outcome) :
@@ -313,7 +329,7 @@ theorem C04_K5_needs_write (c : Case) (hwf : wf c = true) (h5 : "K5" ∈ known c
     c.ops.any isSetOp = true := by
   unfold wf at hwf
   simp only [Bool.and_eq_true, Bool.or_eq_true, Bool.not_eq_true'] at hwf
-  obtain ⟨⟨⟨⟨⟨⟨⟨_, hcls⟩, _⟩, _⟩, _⟩, _⟩, _⟩, hinst⟩ := hwf
+  obtain ⟨⟨⟨⟨⟨⟨⟨⟨_, hcls⟩, _⟩, _⟩, _⟩, _⟩, _⟩, _⟩, hinst⟩ := hwf
   have hnd := nodes_code_doc c hcls
   rw [← hnd] at hinst
   unfold known at h5
@@ -456,7 +472,7 @@ theorem C04_model_meets_spec (c : Case) (hwf : wf c = true) (hk : known c = []) 
     spec c (model c) = true := by
   unfold wf at hwf
   simp only [Bool.and_eq_true, Bool.or_eq_true, Bool.not_eq_true'] at hwf
-  obtain ⟨⟨⟨⟨⟨⟨⟨_, hcls⟩, _⟩, _⟩, _⟩, _⟩, _⟩, hinst⟩ := hwf
+  obtain ⟨⟨⟨⟨⟨⟨⟨⟨_, hcls⟩, _⟩, _⟩, _⟩, _⟩, _⟩, _⟩, hinst⟩ := hwf
   have hnd := nodes_code_doc c hcls
   rw [← hnd] at hinst
   unfold spec
